@@ -69,6 +69,8 @@ fn programs() -> Vec<Prog> {
 fn mk_sess() -> Sess {
     let mut s = Sess::new();
     s.it.enable_warnings = true;
+    // ... and with tracing on: which line was reported last is history as well
+    s.it.enable_tracing = true;
     s
 }
 
@@ -115,7 +117,7 @@ fn drive_run_as(s: &mut Sess, cmd: &str) -> (Vec<String>, VerifState) {
 
 pub fn run(thorough: bool) -> Report {
     let mut rep = Report::new("C10", "model_checking");
-    let depth = if thorough { 9 } else { 6 };
+    let depth = if thorough { 8 } else { 6 };
     let mut total_states = 0u64;
     let mut total_trans = 0u64;
     let mut probes = 0u64;
@@ -170,7 +172,7 @@ pub fn run(thorough: bool) -> Report {
                     Err(pn) => out.push(Violation {
                         signature: format!("panic {}", short_panic(&pn)),
                         detail: pn,
-                        case: case_history(&full, false, false),
+                        case: case_history(&full, true, true),
                     }),
                     Ok((t, fin)) => {
                         if t != fresh.0 {
@@ -179,7 +181,7 @@ pub fn run(thorough: bool) -> Report {
                             out.push(Violation {
                                 signature: format!("{} {} transcript differs from a fresh interpreter: {} vs {}", p.name, cmd, t.get(i).cloned().unwrap_or_default(), fresh.0.get(i).cloned().unwrap_or_default()),
                                 detail: format!("after the history, {} gives {:?}; in a fresh interpreter with the same program and generator state it gives {:?}", cmd, t, fresh.0),
-                                case: case_history(&full, false, false),
+                                case: case_history(&full, true, true),
                             });
                         } else if !{
                             // "the same random-number state": RUN itself leaves the generator alone, so
@@ -195,13 +197,13 @@ pub fn run(thorough: bool) -> Report {
                             out.push(Violation {
                                 signature: format!("{} {} moved the random generator off its sequence", p.name, cmd),
                                 detail: format!("generator state before {}: {}; after the run: {}, which is not within 64 steps of the documented sequence from there", cmd, snap.rng_state, fin.rng_state),
-                                case: case_history(&full, false, false),
+                                case: case_history(&full, true, true),
                             });
                         } else if fin != fresh.1 {
                             out.push(Violation {
                                 signature: format!("{} state after {} differs from a fresh interpreter", p.name, cmd),
                                 detail: format!("final state {:?} vs {:?}", fin, fresh.1),
-                                case: case_history(&full, false, false),
+                                case: case_history(&full, true, true),
                             });
                         }
                     }
